@@ -492,7 +492,13 @@ class Model:
         name = e[1]
         if name in env:
             raise IllFormed('call through a bound name')
-        deflv, (kind, params, body) = self.lookup(name, self.ctx)
+        if name.startswith('super.'):
+            if lvl.parent is None:
+                raise IllFormed('super without parent')
+            name = name[len('super.'):]
+            deflv, (kind, params, body) = self.lookup(name, lvl.parent)
+        else:
+            deflv, (kind, params, body) = self.lookup(name, self.ctx)
         if params is None:
             raise IllFormed('call of parameterless rule')
         args = {}
